@@ -152,6 +152,26 @@ def parse_stage(fn):
                 _fail(st, "second newton_raphson call")
             nr = st.value
             tokens.append("newton_raphson")
+        elif isinstance(st, ast.Try) and not st.orelse and not st.finalbody and len(st.handlers) == 1 and \
+                len(st.body) == 1 and _call_name(st.body[0]) == "newton_raphson":
+            if nr is not None:
+                _fail(st, "second newton_raphson call")
+            nr = st.body[0].value
+            h = st.handlers[0]
+            if h.type is None or _u(h.type) not in ("Exception", "BaseException") or h.name is not None:
+                _fail(st, "handler around newton_raphson must be `except Exception:`")
+            acts = []
+            for b in h.body:
+                if isinstance(b, ast.If) and not b.orelse and _u(b.test) == "not get_net_option(net, 'reuse_internal_data')" \
+                        and [_u(x) for x in b.body] == ["net.pop('_internal_data', None)"]:
+                    acts.append("internal_data:pop")
+                elif _u(b) == "raise":
+                    acts.append("raise")
+                elif _is_logger_call(b):
+                    continue
+                else:
+                    _fail(b, "statement of the handler around newton_raphson not recognised")
+            tokens.append("try[newton_raphson]except[%s]" % ";".join(acts))
         elif isinstance(st, ast.If) and not st.orelse and _u(st.test) == "net.converged":
             tokens.append("if_converged[")
             for b in st.body:
